@@ -133,6 +133,10 @@ type tlDrv struct {
 }
 
 func (d *tlDrv) feed(tg c10.Target, class string, data []byte) {
+	if d.r.Skipped() {
+		d.r.SkipSlot()
+		return
+	}
 	in := ev.M{"ty": tg.Ty, "op": tg.Op, "go": tg.T.String(), "hex": hex.EncodeToString(data), "size": len(data), "val": false,
 		"guard": guardTL(d.s, tg.Ty, data)}
 	var v reflect.Value
@@ -183,7 +187,7 @@ func DriveTL(w *ev.Writer, o Opts) error {
 	d := &tlDrv{r: r, s: s}
 	per, hugeCap := 50, 6
 	if o.thorough() {
-		per, hugeCap = 2000, 60
+		per, hugeCap = 2000, 10
 	}
 	for ti, tg := range ts {
 		if ti%o.Shards != o.Shard {
